@@ -2,6 +2,7 @@ package main
 
 import (
 	"fmt"
+	"sort"
 	"strings"
 )
 
@@ -148,9 +149,14 @@ func registerChecks() {
 			for i := 0; i < cx.N(300, 8000); i++ {
 				cs = append(cs, genCgoHistory(cx, i))
 			}
+			for i := 0; i < cx.N(300, 8000); i++ {
+				cs = append(cs, genPlaceholderHistory(cx, i, "C08"))
+			}
 			return cs
 		},
-		Oracle: oracleC08,
+		Oracle: func(cx *CheckCtx, runs []*CaseRun) []Finding {
+			return append(oracleC08(cx, runs), erasureOracle(cx, runs, "C08", cx.N(200, 3000))...)
+		},
 	}
 	checks["C09"] = &PropCheck{
 		Gen: func(cx *CheckCtx) []*Case {
@@ -216,15 +222,21 @@ func registerChecks() {
 					cs = append(cs, base, injectVoids(base, cx.R.Fork(), 50))
 				}
 			}
+			// a null item that stops being null between two renders (the caller extends a held
+			// statement): from then on it is one of "the remaining items"
+			for i := 0; i < cx.N(300, 8000); i++ {
+				cs = append(cs, genPlaceholderHistory(cx, i, "C13"))
+			}
 			return cs
 		},
 		Oracle: func(cx *CheckCtx, runs []*CaseRun) []Finding {
-			return pairOracle(cx, runs, "C13", "injecting nil/Null()/empty items changed the output", func(a, b string) (bool, string) {
+			fs := pairOracle(cx, runs, "C13", "injecting nil/Null()/empty items changed the output", func(a, b string) (bool, string) {
 				if a == b {
 					return true, ""
 				}
 				return false, "rendered bytes differ"
 			})
+			return append(fs, erasureOracle(cx, runs, "C13", cx.N(150, 3000))...)
 		},
 	}
 	checks["C14"] = &PropCheck{
@@ -258,6 +270,37 @@ func registerChecks() {
 				c2.Ops = append(c2.Ops, Op{Kind: OpApp, S: 3, Items: []SItem{&Grp{Api: "Index", Args: []Arg{st(mkLit(0))}}}})
 				c2.Ops = append(c2.Ops, Op{Kind: OpFrag, S: 1, F: 0}, Op{Kind: OpRender, F: 0}, Op{Kind: OpFrag, S: 2, F: 0})
 				cs = append(cs, c2)
+			}
+			// re-entrant callbacks: while the callback of an inner ...Func construct runs (i.e.
+			// while the Group form g.XFunc(cb) is still building its statement), it adds an item
+			// to the ENCLOSING group; the Group form appends its statement only after building it,
+			// so the hoisted item comes first — for every construct with a Func variant
+			{
+				var apis []string
+				for name, kind := range genConstructs {
+					if kind == "callback" {
+						apis = append(apis, strings.TrimSuffix(name, "Func"))
+					}
+				}
+				sort.Strings(apis)
+				for i := 0; i < cx.N(len(apis), 20*len(apis)); i++ {
+					r := cx.R.Fork()
+					api := apis[i%len(apis)]
+					inner := &GrpFunc{Api: api, Items: []FuncItem{{Wrapped: true, A: st(id("x"))}, {Wrapped: false, A: st(id("y"), &Grp{Api: "Call"})}}}
+					outerApi := pick(r, []string{"Block", "Block", "Defs", "List", "Call", "Values"})
+					items := []FuncItem{{Wrapped: true, A: st(id("before"))},
+						{Wrapped: true, Hoist: true, A: st(id("hoisted"), op(":="), mkLit(i))},
+						{Wrapped: false, A: st(inner, &Grp{Api: "Block"})},
+						{Wrapped: r.Bool(), A: st(id("after"))}}
+					if r.Chance(30) {
+						items = append(items[:2], append([]FuncItem{{Wrapped: true, Hoist: true, A: st(id("hoisted2"))}}, items[2:]...)...)
+					}
+					c := &Case{ID: fmt.Sprintf("C14-reentrant-%s-%d-%d", api, cx.Seed, i)}
+					c.Ops = append(c.Ops, Op{Kind: OpFile, F: 0, Str: []string{"new", "", "p"}}, Op{Kind: OpSet, F: 0, Str: []string{"noformat", "1"}})
+					c.Ops = append(c.Ops, Op{Kind: OpFAdd, F: 0, Args: []Arg{st(kw("Func"), id("f"), &Grp{Api: "Params"}, &GrpFunc{Api: outerApi, Items: items})}})
+					c.Ops = append(c.Ops, Op{Kind: OpRender, F: 0})
+					cs = append(cs, c)
+				}
 			}
 			return cs
 		},
